@@ -174,6 +174,24 @@ def oracle_c13(case, lo):
                 bad = sum(1 for a, b in zip(want, got) if a != b)
                 fails.append("%s honest proof: %d of %d opened positions are not the transcript bytes reduced mod n (n=%d)"
                              % (case.fields["scheme"][0], bad, len(got), n_ext))
+    elif sub == "calct":
+        # the count the library computes against the bound itself, in exact integer arithmetic (independent of the extracted model):
+        # a count below the codeword length must satisfy 2 (1 - d/2)^t + n/|F| <= 2^-lambda for the field size or for 2^bits
+        tt = lib_s(lo, "t")
+        if tt is not None and tt.isdigit():
+            t, n = int(tt), int(case.fields["n"][0])
+            lam, d0, d1 = int(case.fields["lam"][0]), int(case.fields["d0"][0]), int(case.fields["d1"][0])
+            fld = case.fields["field"][0]
+            mod = {"bls381": R_BLS381,
+                   "ed": 6554484396890773809930967563523245729705921265872317281365359162392183254199,
+                   "bn254": 21888242871839275222246405745257275088548364400416034343698204186575808495617}[fld]
+            bits = {"bls381": 255, "ed": 252, "bn254": 254}[fld]
+            a, b, L = 2 * d1 - d0, 2 * d1, 1 << lam
+            if 0 < d0 <= d1 and d1 > 0 and t < n and not any(2 * a ** t * L * Fs + n * b ** t * L <= b ** t * Fs for Fs in (mod, 1 << bits)):
+                fails.append("calculate_t(lambda=%d, distance %d/%d, n=%d, %s) = %d: too few columns for 2(1-d/2)^t + n/|F| <= 2^-%d"
+                             % (lam, d0, d1, n, fld, t, lam))
+            if t > n:
+                fails.append("calculate_t(lambda=%d, distance %d/%d, n=%d, %s) = %d exceeds the codeword length" % (lam, d0, d1, n, fld, t))
     elif sub == "encode":
         if lib_s(lo, "encode") == "ok" and lib_s(lo, "linear") != "holds":
             fails.append("%s row encoding is not linear: E(a*x+b*y) != a*E(x)+b*E(y)" % case.fields["scheme"][0])
@@ -443,6 +461,13 @@ def oracle_c19(case, lo):
             sel = case.meta["ops"][t]["sel"]
             if sch in ("marlin", "sonic") and size > g1c + 1 + 32:
                 fails.append("%s proof of %d bytes for %d polynomials: not one group element and an optional scalar" % (sch, size, len(sel)))
+            elif sch in ("marlin", "sonic"):
+                # the blinding evaluation is part of the proof exactly when an opened polynomial is hiding
+                hid = any(case.fields["hiding.%d" % i][0] != "none" for i in sel)
+                if size != g1c + 1 + (32 if hid else 0):
+                    fails.append("%s proof of %d bytes for %d polynomials (%s): expected %d bytes (one group element%s)"
+                                 % (sch, size, len(sel), "hiding" if hid else "not hiding", g1c + 1 + (32 if hid else 0),
+                                    " and the blinding evaluation" if hid else ", no blinding evaluation"))
             if sch == "pst13":
                 nv = int(case.fields["num_vars"][0])
                 if size not in (8 + nv * 48 + 1, 8 + nv * 48 + 1 + 32):
@@ -659,7 +684,7 @@ PROPS = {
     "C03": {
         "props_file": "props/C03.v",
         "flows": [(gen_kzg.gen, "c03", 40, 400), (gen_pc.gen, "c03", 160, 1600), (gen_mlpc.gen, "c03", 16, 160), (gen_lig.gen, "c03", 16, 160), (gen_lig.gen_multi, "c03", 8, 80), (gen_ipax.gen, "c03", 6, 60)],
-        "oracles": [oracle_mlpc, oracle_lig, oracle_ipax, lambda c, lo: pc_mutations(c, lo, ("proofs", "proof_mut", "proof_mut_v", "attack"))],
+        "oracles": [oracle_mlpc, oracle_lig, oracle_ipax, lambda c, lo: pc_mutations(c, lo, ("proofs", "proof_mut", "proof_mut_v", "attack", "comm_mut"))],
         "accept_diffs": ("mut.",),
         "title": "Evaluation binding (crafted proofs)",
     },
@@ -673,7 +698,7 @@ PROPS = {
     "C10": {
         "props_file": "props/C10.v",
         "flows": [(gen_kzg.gen, "c10", 40, 400), (gen_pc.gen, "c10", 160, 1600), (gen_lig.gen, "c10", 16, 160), (gen_lig.gen_multi, "c10", 8, 80), (gen_ipax.gen, "c10", 6, 60)],
-        "oracles": [oracle_kzg_muts, pc_honest, oracle_lig, oracle_ipax, lambda c, lo: pc_mutations(c, lo, ("value", "comm_swap", "cancel", "proof_mut"))],
+        "oracles": [oracle_kzg_muts, pc_honest, oracle_lig, oracle_ipax, lambda c, lo: pc_mutations(c, lo, ("value", "comm_swap", "cancel", "proof_mut", "comm_mut"))],
         "accept_diffs": ("mut.", "batch."),
         "title": "Verifiers decide the published relation",
     },
@@ -721,7 +746,7 @@ PROPS = {
         "props_file": "props/C17.v",
         "flows": [(gen_kzg.gen, "c17", 60, 600), (gen_pc.gen, "c17", 120, 1200), (gen_pc.gen, "c17domain", 60, 600), (gen_pc.gen, "c01", 40, 400),
                   (gen_mlpc.gen, "c17", 24, 240)],
-        "oracles": [oracle_c17_kzg, oracle_c01_kzg, pc_honest, pc_refusals, pc_domain, oracle_mlpc, lambda c, lo: pc_mutations(c, lo, ("drop_eval", "drop_comm"))],
+        "oracles": [oracle_c17_kzg, oracle_c01_kzg, pc_honest, pc_refusals, pc_domain, oracle_mlpc, lambda c, lo: pc_mutations(c, lo, ("drop_eval", "drop_comm", "comm_mut"))],
         "accept_diffs": ("mut.",),
         "title": "Out-of-domain requests are refused",
     },
